@@ -17,19 +17,52 @@ theorem ddOf_spec {inp : RunInput} {s : Sys} {d : Name} (h : InvE inp s) (hf : (
 theorem inLoop_false {pc : PC} (h : pc.inLoop = false) : pc.iterT = false ∧ pc.iterC = false := by
   cases pc <;> simp [PC.inLoop, PC.iterT, PC.iterC] at h ⊢
 
+/-- a failed task whose denotation is a failure during execution delivers `calcResFail` under `ddOf` -/
+theorem delivOf_ddOf_fail {inp : RunInput} {s : Sys} {c : Name} (hD : InvE inp s) (hf : stOf s c = .fail)
+    (hsf : SF inp c) : delivOf inp c (ddOf inp s c) = inp.calcResFail c := by
+  obtain ⟨d, hd, hs⟩ := hsf
+  have sp := ddOf_spec hD (d := c) (by rw [hf]; rfl)
+  have e : d = ddOf inp s c := hd.functional sp.1
+  subst e
+  exact delivOf_fail (by rw [sp.2, hf]; rfl) hs
+
 /-- calc_deps justified by the state are calc_deps of the denotation -/
 theorem CalcS.toOf {inp : RunInput} {s : Sys} {n c : Name} (hD : InvE inp s) (h : CalcS inp s n c) :
     CalcOf inp (ddOf inp s) n c := by
   induction h with
   | static hc => exact CalcOf.static hc
   | deliv _ hg hm ih =>
-    exact CalcOf.deliv ih (by rw [(ddOf_spec hD (RS.good_finished hg)).2]; exact hg) hm
+    exact CalcOf.deliv ih (by rw [delivOf_good (by rw [(ddOf_spec hD (RS.good_finished hg)).2]; exact hg)]; exact hm)
+  | delivF _ hf hsf hm ih =>
+    exact CalcOf.deliv ih (by rw [delivOf_ddOf_fail hD hf hsf]; exact hm)
 
 theorem TaskS.toOf {inp : RunInput} {s : Sys} {n x : Name} (hD : InvE inp s) (h : TaskS inp s n x) :
     DepOf inp (ddOf inp s) n x := by
-  rcases h with a | ⟨c, hc, hg, hm⟩
+  rcases h with a | ⟨c, hc, hg, hm⟩ | ⟨c, hc, hf, hsf, hm⟩
   · exact Or.inl a
-  · exact Or.inr (Or.inr ⟨c, hc.toOf hD, by rw [(ddOf_spec hD (RS.good_finished hg)).2]; exact hg, hm⟩)
+  · exact Or.inr (Or.inr ⟨c, hc.toOf hD,
+      by rw [delivOf_good (by rw [(ddOf_spec hD (RS.good_finished hg)).2]; exact hg)]; exact hm⟩)
+  · exact Or.inr (Or.inr ⟨c, hc.toOf hD, by rw [delivOf_ddOf_fail hD hf hsf]; exact hm⟩)
+
+/-- what the failed-during-execution calc_deps of a node delivered is in its dynamic dependency lists -/
+def DelivF (inp : RunInput) (s : Sys) (nd : Node) : Prop :=
+  ∀ c ∈ nd.dynCalc, (stOf s c).finished = true → (stOf s c).good = false → startedFail inp c (ddOf inp s c) = true →
+    (∀ x ∈ (inp.calcResFail c).tasks, x ∈ nd.dynTask) ∧ (∀ x ∈ (inp.calcResFail c).files, x ∈ nd.dynTask) ∧
+    (∀ x ∈ (inp.calcResFail c).calcs, x ∈ nd.dynCalc)
+
+/-- the completeness invariant `AllDCF` (what a processed, failed-during-execution calc_dep returned is in the lists)
+    gives `DelivF` at a point where the node waits for nothing -/
+theorem DelivF.ofDCF {inp : RunInput} {s : Sys} {n : Name} {nd : Node} (hD : InvE inp s) (h1 : Inv1 inp s)
+    (hdcf : AllDCF inp (SF inp) s) (hn : s.nodes n = some nd) (hl : nd.pc.inLoop = false) : DelivF inp s nd := by
+  intro c hc hfin hg hsf
+  have hm1 := (h1.node n nd hn).m1 hl
+  obtain ⟨_, noC⟩ := inLoop_false hl
+  have hpr : Processed nd c := ⟨by rw [hm1.2.1]; simp,
+    (fun (e : nd.pc.iterC = true ∧ c ∈ nd.snapCalc) => by rw [noC] at e; cases e.1), by rw [hm1.2.2]; simp⟩
+  have hf : stOf s c = .fail := by
+    rw [← (ddOf_spec hD hfin).2]
+    cases hdd : ddOf inp s c <;> rw [hdd] at hsf <;> first | rfl | (simp [startedFail] at hsf)
+  exact hdcf n nd hn c hc hpr hf ⟨_, (ddOf_spec hD hfin).1, hsf⟩
 
 /-- what the invariants give about the dependency lists of a node that is outside the dependency loop and waits for
     nothing (the two select points, and `done`) -/
@@ -39,10 +72,11 @@ structure SelDeps (inp : RunInput) (s : Sys) (n : Name) (nd : Node) : Prop where
   hT : ∀ d ∈ nd.dynTask ++ nd.dynCalc, DenOf inp d (ddOf inp s d)
   rs : ∀ d ∈ nd.dynTask ++ nd.dynCalc, (ddOf inp s d).rs = stOf s d
   deliv : ∀ c ∈ nd.dynCalc, (stOf s c).good = true → Delivered inp nd c
+  delivF : DelivF inp s nd
 
 theorem sel_deps {inp : RunInput} {s : Sys} {n : Name} {nd : Node} (hD : InvE inp s) (hN : InvN inp s)
     (h1 : Inv1 inp s) (hdc : AllDC inp s) (hn : s.nodes n = some nd) (hl : nd.pc.inLoop = false)
-    (hq : nd.pc.quiet = true) : SelDeps inp s n nd := by
+    (hq : nd.pc.quiet = true) (hdf : DelivF inp s nd) : SelDeps inp s n nd := by
   have hok := h1.node n nd hn
   have hS := hN n nd hn
   have hm1 := hok.m1 hl
@@ -71,25 +105,38 @@ theorem sel_deps {inp : RunInput} {s : Sys} {n : Name} {nd : Node} (hD : InvE in
     intro c hc
     induction hc with
     | static hc => exact hok.st.2 _ hc
-    | @deliv c x _ hg hm ih =>
-      rw [rs c (by simp [ih])] at hg
-      exact (deliv c ih hg).2.2 x hm
-  refine ⟨cls, ?_, fun d hd => (ddOf_spec hD (cls d hd).1).1, rs, deliv⟩
+    | @deliv c x _ hm ih =>
+      have hcm : c ∈ nd.dynTask ++ nd.dynCalc := by simp [ih]
+      rcases delivOf_cases inp c (ddOf inp s c) with ⟨hg, e⟩ | ⟨hg, hsf, e⟩ | e
+      · rw [e] at hm; rw [rs c hcm] at hg
+        exact (deliv c ih hg).2.2 x hm
+      · rw [e] at hm; rw [rs c hcm] at hg
+        exact (hdf c ih (cls c hcm).1 hg hsf).2.2 x hm
+      · rw [e] at hm; cases hm
+  refine ⟨cls, ?_, fun d hd => (ddOf_spec hD (cls d hd).1).1, rs, deliv, hdf⟩
   intro x
   constructor
   · intro hx
     rcases List.mem_append.mp hx with a | a
     · exact (hS.1.dynT x a).toOf hD
     · exact DepOf.ofCalc ((hS.1.dynC x a).toOf hD)
-  · rintro (a | a | ⟨c, hc, hg, hm⟩)
+  · rintro (a | a | ⟨c, hc, hm⟩)
     · exact List.mem_append.mpr (Or.inl (hok.st.1 x a))
     · exact List.mem_append.mpr (Or.inr (calcIn x a))
     · have hc' := calcIn c hc
-      rw [rs c (by simp [hc'])] at hg
-      obtain ⟨d1, d2, _⟩ := deliv c hc' hg
-      rcases hm with m | m
-      · exact List.mem_append.mpr (Or.inl (d1 x m))
-      · exact List.mem_append.mpr (Or.inl (d2 x m))
+      have hcm : c ∈ nd.dynTask ++ nd.dynCalc := by simp [hc']
+      rcases delivOf_cases inp c (ddOf inp s c) with ⟨hg, e⟩ | ⟨hg, hsf, e⟩ | e
+      · rw [e] at hm; rw [rs c hcm] at hg
+        obtain ⟨d1, d2, _⟩ := deliv c hc' hg
+        rcases hm with m | m
+        · exact List.mem_append.mpr (Or.inl (d1 x m))
+        · exact List.mem_append.mpr (Or.inl (d2 x m))
+      · rw [e] at hm; rw [rs c hcm] at hg
+        obtain ⟨d1, d2, _⟩ := hdf c hc' (cls c hcm).1 hg hsf
+        rcases hm with m | m
+        · exact List.mem_append.mpr (Or.inl (d1 x m))
+        · exact List.mem_append.mpr (Or.inl (d2 x m))
+      · rw [e] at hm; rcases hm with m | m <;> cases m
 
 theorem stage1L_run {inp : RunInput} {dd : Name → Den} {L : List Name} {n : Name} (h : stage1L inp dd L n = .run) :
     ¬ (L.any (fun d => (dd d).isIgn) = true) ∧ ¬ (L.any (fun d => (dd d).isFail) = true) := by
@@ -164,7 +211,7 @@ theorem r1_now {inp : RunInput} {s : Sys} {n : Name} {nd : Node} (sd : SelDeps i
 /-- `select_task(n)` on the node the generator yielded: the new status / report / `go` mark is the denotation's -/
 theorem invE_select {inp : RunInput} {s : Sys} {n : Name} {nd : Node} (hD : InvE inp s) (hN : InvN inp s)
     (h2 : Inv2 inp s) (hdc : AllDC inp s) (haw : awaiting s) (hsusp : s.susp = some (.node n))
-    (hn : s.nodes n = some nd)
+    (hn : s.nodes n = some nd) (hdf : DelivF inp s nd)
     (hd : selDecision inp n nd ≠ .assertFail) : InvE inp (applySel inp s n nd (selDecision inp n nd)) := by
   have hok := h2.inv1.node n nd hn
   have hS := hN n nd hn
@@ -173,7 +220,7 @@ theorem invE_select {inp : RunInput} {s : Sys} {n : Name} {nd : Node} (hD : InvE
   have hm2 : nd.waitRun = [] := by
     rcases hpc with e | e <;> exact hok.m2 (by rw [e]; rfl)
   have sd : SelDeps inp s n nd := by
-    rcases hpc with e | e <;> exact sel_deps hD hN h2.inv1 hdc hn (by rw [e]; rfl) (by rw [e]; rfl)
+    rcases hpc with e | e <;> exact sel_deps hD hN h2.inv1 hdc hn (by rw [e]; rfl) (by rw [e]; rfl) hdf
   have hu := selDecision_unfinished hd
   by_cases h0 : nd.status = .none
   · -- first pass
@@ -199,7 +246,7 @@ theorem invE_select {inp : RunInput} {s : Sys} {n : Name} {nd : Node} (hD : InvE
       rcases hdec with e | e <;> (rw [e] at key; exact key.1)
     · intro hdec
       rw [hdec] at key
-      refine ⟨ddOf inp s, _, sd.hL, sd.hT, key.1, ?_, ?_⟩
+      refine ⟨ddOf inp s, _, sd.hL, sd.hT, key.1, ?_, ?_, key.2.2⟩
       · intro d hd'; rw [key.2.1] at hd'; cases hd'
       · simp [stage2, key.2.1, key.2.2]
   · -- second pass
@@ -258,6 +305,6 @@ theorem invE_select {inp : RunInput} {s : Sys} {n : Name} {nd : Node} (hD : InvE
     · intro _; exact ⟨ddOf inp s, _, sd.hL, sd.hT, h1⟩
     · intro hdec
       rw [hdec] at key
-      exact ⟨ddOf inp s, _, sd.hL, sd.hT, h1, hSd, key⟩
+      exact ⟨ddOf inp s, _, sd.hL, sd.hT, h1, hSd, key, selDecision_go_args hdec⟩
 
 end DoitModel.Run.Dyn
